@@ -42,10 +42,74 @@ import (
 
 func init() {
 	kit.Register("C07.chains", runChains)
+	kit.Register("C07.scripted", runScripted)
+}
+
+// runScripted: minimal chains for the leaks the generated chains keep finding (crisp witnesses).
+//
+//	fs<i>  no transaction at all: the genesis House validators are force-settled at block 143
+//	gr<i>  three transactions: deploy the storage writer, set a slot, clear the slot (gas refund)
+//	dv<i>  one transaction: the operator of an online House validator withdraws its whole self token
+func runScripted(c *kit.Ctx) {
+	kinds := []string{"fs", "gr", "dv"}
+	n := c.N(3, 12)
+	for i := 0; i < n; i++ {
+		kind := kinds[i%3]
+		id := fmt.Sprintf("%s%d", kind, i/3)
+		if !c.Mine(i, id) {
+			continue
+		}
+		r := c.Rand(id)
+		blocks := 20
+		if kind == "fs" {
+			blocks = 160
+		}
+		sc := chaingen.PickScenario(r, blocks)
+		sc.Evidence = false
+		sc.Pool = new(big.Int).Mul(big.NewInt(1000000), params.StakeUint)
+		c.Begin(id, map[string]interface{}{"scenario": sc.Name, "script": kind})
+		run, err := chaingen.NewRun(c, id, r, sc)
+		if err != nil {
+			c.EndInconclusive("setup: " + err.Error())
+			continue
+		}
+		w := run.W
+		var store common.Address
+		hv := -1
+		for j, v := range sc.Vals {
+			if v.Role == params.RoleHouse && v.Status == params.ValidatorOnline {
+				hv = j
+			}
+		}
+		run.Script = func(run *chaingen.Run, st *state.StateDB, n uint64) ([]chaingen.TxInfo, bool) {
+			w.BeginScript(st)
+			switch {
+			case kind == "gr" && n == 1:
+				ti, addr := w.EVMTx(7, nil, nil, 200000, chaingen.StoreContractInit(), "evm.deploy.store")
+				store = addr
+				return []chaingen.TxInfo{ti}, true
+			case kind == "gr" && (n == 2 || n == 3):
+				data := make([]byte, 64)
+				if n == 2 {
+					data[63] = 9
+				}
+				ti, _ := w.EVMTx(7, &store, nil, 100000, data, "evm.call.store")
+				return []chaingen.TxInfo{ti}, true
+			case kind == "dv" && n == 1:
+				v := st.GetValidatorByMainAddr(w.VA(hv))
+				return []chaingen.TxInfo{w.StakingTx(hv, staking.ValidatorWithDraw, &staking.TxValidatorWithdraw{MainAddress: w.VA(hv), Recipient: w.UA(hv), Value: new(big.Int).Set(v.SelfToken)}, "stk.withdraw", nil)}, true
+			}
+			return nil, true
+		}
+		m := NewMonitor()
+		sig := run.Execute(m, chaingen.InvMonitor{})
+		run.Close()
+		c.End("scripted " + kind + " " + sig + " " + m.signature())
+	}
 }
 
 func runChains(c *kit.Ctx) {
-	n := c.N(32, 640)
+	n := c.N(32, 1600)
 	for i := 0; i < n; i++ {
 		id := fmt.Sprintf("cv%d", i)
 		if !c.Mine(i, id) {
@@ -57,7 +121,7 @@ func runChains(c *kit.Ctx) {
 			blocks = 400 + 16*r.Intn(13)
 		}
 		sc := chaingen.PickScenario(r, blocks)
-		c.Begin(id, map[string]interface{}{"scenario": sc.Name, "blocks": sc.Blocks, "pool": sc.Pool.String(), "evidence": sc.Evidence, "busy": sc.Busy})
+		c.Begin(id, map[string]interface{}{"scenario": sc.Name, "blocks": sc.Blocks, "pool": sc.Pool.String(), "evidence": sc.Evidence, "busy": sc.Busy, "negrecord": sc.NegRecord, "reckless_evidence": sc.RecklessEvidence})
 		run, err := chaingen.NewRun(c, id, r, sc)
 		if err != nil {
 			c.EndInconclusive("setup: " + err.Error())
@@ -488,12 +552,25 @@ func (m *Monitor) Imported(r *chaingen.Run, b *chaingen.BlockCtx) bool {
 	}
 	total := new(big.Int).Add(post.Total(), inflightAfter)
 	delta := new(big.Int).Sub(total, m.expected)
-	explained := new(big.Int).Sub(mint, forced)
-	explained.Sub(explained, deletedRD)
+	// mint and deletedRD are measured; the forced-settlement loss is a prediction that excuses a
+	// deficit of exactly that size — it is not demanded (a repaired tree loses nothing)
+	base := new(big.Int).Sub(mint, deletedRD)
+	explained := new(big.Int).Sub(base, forced)
 	if !predictable {
-		explained = new(big.Int).Sub(mint, deletedRD)
+		forced = new(big.Int)
+		explained = base
 	}
 	c.Evals(1)
+	if forced.Sign() > 0 {
+		c.Count("forced_settlements", len(forcedWho))
+		m.feats["forced"] = true
+	}
+	if forced.Sign() > 0 && delta.Cmp(base) == 0 {
+		// the predicted loss did not happen
+		c.Count("forced_settlements_without_loss", len(forcedWho))
+		forced = new(big.Int)
+		explained = base
+	}
 	if delta.Cmp(explained) != 0 {
 		un := new(big.Int).Sub(delta, explained)
 		class, why := m.classify(un, pre, post, failedVals, b)
@@ -510,8 +587,7 @@ func (m *Monitor) Imported(r *chaingen.Run, b *chaingen.BlockCtx) bool {
 	}
 	if forced.Sign() > 0 && predictable {
 		r.Known("c07-forced-settle-overwrites-distributed-reward", fmt.Sprintf("block %d (period end): the total drops by exactly %s = the period share of the force-settled House validators %v: distributeRewards adds the share to a copy and then settles the stale record, whose write-back overwrites the copy", b.N, lu(forced), forcedWho), r.Witness(b, map[string]interface{}{"before": pre.describe(), "after": post.describe(), "predicted_loss": forced.String(), "force_settled": forcedWho}))
-		c.Count("forced_settlements", len(forcedWho))
-		m.feats["forced"] = true
+		c.Count("forced_settlements_with_loss", len(forcedWho))
 	}
 	if deletedRD.Sign() > 0 {
 		r.Known("deleted-validator-drops-undistributed-rewards", fmt.Sprintf("block %d: %v ended the block without token and stake and were deleted by IntermediateRoot(true) together with their RewardsDistributable (the settlement residue an online validator keeps): %s vanish", b.N, deletedWho, lu(deletedRD)), r.Witness(b, map[string]interface{}{"deleted": deletedWho}))
@@ -590,7 +666,11 @@ func (m *Monitor) Imported(r *chaingen.Run, b *chaingen.BlockCtx) bool {
 		c.Count("importer_states_checked", 1)
 	} else {
 		// the divergence itself is C06's subject; conservation cannot be followed on B any further
-		r.Violation("import-rejected:"+chaingen.Normalise(b.ImportErr.Error()), fmt.Sprintf("block %d rejected by the importer: %v", b.N, b.ImportErr), r.Witness(b, nil))
+		class, extra := "import-rejected:"+chaingen.Normalise(b.ImportErr.Error()), map[string]interface{}{}
+		if cl := chaingen.EvidenceClass(r, b, extra); cl != "" {
+			class = cl
+		}
+		r.Violation(class, fmt.Sprintf("block %d rejected by the importer: %v", b.N, b.ImportErr), r.Witness(b, extra))
 		return false
 	}
 	c.Count("blocks_balanced", 1)
